@@ -182,13 +182,15 @@ def py_apply_edit(cfg, e):
     return cfg
 
 
-def gen_edit(r, cfg, mode, request_only=False):
+def gen_edit(r, cfg, mode, request_only=False, only=None):
     """One valid edit of the current configuration."""
     req = cfg["req"]
     fmts = ["fits", "npy", "fits", "npy", "jpg"] if mode != "seq" else ["fits", "npy"]
     kinds = ["append_dict", "append_fmt", "append_fmt", "set", "set_bucket"]
     if not request_only:
-        kinds += ["folder", "prefix"]
+        kinds += ["folder", "prefix", "prefix"]
+    if only:
+        kinds = list(only)
     if len(req) > 1:
         kinds.append("remove_dict")
     if any(len(d) > 1 for d in req):
@@ -197,10 +199,10 @@ def gen_edit(r, cfg, mode, request_only=False):
         kinds += ["remove_fmt", "remove_fmt"]
     k = r.choice(kinds)
     inplace = r.random() < 0.65
-    if k == "folder":
-        return dict(op="folder", name=r.choice(["A", "B"]))
+    if k == "folder":        # always a real change
+        return dict(op="folder", name=r.choice([x for x in ("A", "B", "C") if x != cfg["folder"]]))
     if k == "prefix":
-        return dict(op="prefix", name=r.choice(["", "foo_"]))
+        return dict(op="prefix", name=r.choice([x for x in ("", "foo_", "bar_") if x != cfg["prefix"]]))
     if k == "set":
         return dict(op="set", req=gen_req(r, mode, clean=True))
     if k == "append_dict":
@@ -252,9 +254,7 @@ def gen_hist(r, mode, scheduler="threads", deferred=False, snapshot=False):
         for _ in range(n):
             e = gen_edit(r, cur, mode, request_only)
             if pending and not snapshot and e["op"] not in ("folder", "prefix"):
-                e = dict(op=r.choice(["folder", "prefix"]), name=r.choice(["A", "B"]))
-                if e["op"] == "prefix":
-                    e["name"] = r.choice(["", "foo_"])
+                e = gen_edit(r, dict(cur, req=[]), mode, only=("folder", "prefix"))
             cur = py_apply_edit(cur, e)
             ops.append(["edit", e])
 
@@ -324,6 +324,12 @@ HIST_ADVERSARIAL = [
          world=[], ops=[["run", 2, []], ["edit", dict(op="append_fmt", i=0, b="image", f="fits", inplace=True)],
                         ["run", 2, []], ["edit", dict(op="append_dict", dict=[("signal", ["npy"])], inplace=False)],
                         ["run", 2, []]]),
+    # folder and prefix changed and changed back
+    dict(kind="hist", mode="exposure", ts=TS, nruns=1, cfg=dict(req=[[("image", ["npy"])]], folder="A", prefix="foo_"),
+         world=[["A/run_" + TS, ["keep.txt"]]],
+         ops=[["run", 1, []], ["edit", dict(op="prefix", name="")], ["run", 1, []],
+              ["edit", dict(op="folder", name="B")], ["edit", dict(op="prefix", name="bar_")], ["run", 1, []],
+              ["edit", dict(op="folder", name="A")], ["edit", dict(op="prefix", name="foo_")], ["run", 1, []]]),
     # two dask observations started on one object before either is computed
     dict(kind="hist", mode="dask", ts=TS, nruns=2, cfg=dict(req=[[("image", ["npy"])]], folder="A", prefix=""),
          world=[], scheduler="threads", ops=[["start", 2, []], ["start", 2, []], ["compute", 0], ["compute", 1]]),
